@@ -217,7 +217,7 @@ func ExtractInputs(o *Obligation, cfg *SolverCfg) map[string]any {
 		case "bytes", "strings":
 			limits = append(limits, fmt.Sprintf("(assert (<= (s-len %s) %d))", in.Term, maxElems))
 		case "string":
-			limits = append(limits, fmt.Sprintf("(assert (<= (str-len %s) %d))", in.Term, maxElems))
+			limits = append(limits, fmt.Sprintf("(assert (<= (slen %s) %d))", in.Term, maxElems))
 		}
 	}
 	solvers := []string{o.Solver, "z3-new", "z3"}
@@ -238,11 +238,11 @@ func ExtractInputs(o *Obligation, cfg *SolverCfg) map[string]any {
 				if in.Kind == "bytes" {
 					add(el)
 				} else {
-					add("(str-len " + el + ")")
+					add("(slen " + el + ")")
 				}
 			}
 		case "string":
-			add("(str-len " + in.Term + ")")
+			add("(slen " + in.Term + ")")
 			for i := 0; i < maxElems; i++ {
 				add(fmt.Sprintf("(select (str-data %s) %d)", in.Term, i))
 			}
@@ -314,7 +314,7 @@ func ExtractInputs(o *Obligation, cfg *SolverCfg) map[string]any {
 			}
 			out[in.Name] = map[string]any{"len": ln, "cap": cp, "nil": isnil != nil && isnil.atom == "true", "elems": elems}
 		case "string":
-			ln, _ := sxInt(vals["(str-len "+in.Term+")"])
+			ln, _ := sxInt(vals["(slen "+in.Term+")"])
 			var bs []int64
 			for i := int64(0); i < ln && i < maxElems; i++ {
 				n, _ := sxInt(vals[fmt.Sprintf("(select (str-data %s) %d)", in.Term, i)])
@@ -328,7 +328,7 @@ func ExtractInputs(o *Obligation, cfg *SolverCfg) map[string]any {
 			ln, _ := sxInt(vals["(s-len "+in.Term+")"])
 			for i := int64(0); i < ln && i < maxElems; i++ {
 				el := fmt.Sprintf("(select (select %s (s-arr %s)) (+ (s-off %s) %d))", in.Heap, in.Term, in.Term, i)
-				sl, _ := sxInt(vals["(str-len "+el+")"])
+				sl, _ := sxInt(vals["(slen "+el+")"])
 				strReqs = append(strReqs, strReq{in, int(i), sl})
 				for j := int64(0); j < sl && j < maxElems; j++ {
 					strTerms = append(strTerms, fmt.Sprintf("(select (str-data %s) %d)", el, j))
@@ -350,7 +350,7 @@ func ExtractInputs(o *Obligation, cfg *SolverCfg) map[string]any {
 		var pins []string
 		for _, r := range strReqs {
 			el := fmt.Sprintf("(select (select %s (s-arr %s)) (+ (s-off %s) %d))", r.in.Heap, r.in.Term, r.in.Term, r.idx)
-			pins = append(pins, fmt.Sprintf("(assert (= (str-len %s) %d))", el, r.ln))
+			pins = append(pins, fmt.Sprintf("(assert (= (slen %s) %d))", el, r.ln))
 		}
 		for _, in := range o.Inputs {
 			if in.Kind == "strings" {
